@@ -123,6 +123,10 @@ pub struct Case {
     pub features: Vec<String>,
     #[serde(default)]
     pub excluded: Vec<String>,
+    /// Execution deadline per cycle for this case (None: 2 s). The non-terminating class uses
+    /// 200 ms, the tiny-deadline class 0 ms.
+    #[serde(default)]
+    pub deadline_ms: Option<u64>,
 }
 
 fn empty_tape() -> Tape {
@@ -151,6 +155,7 @@ fn ext_config(d: &Dials) -> ext::ExtCfg {
         int_pow_negative: !d.is_open("F23-"),
         at_unsupported_types: !d.is_open("F33-"),
         task_fb: !d.is_open("F7-"),
+        jmp_nested: !d.is_open("F51-"),
         invalid_bcd: !d.is_open("F38-"),
         string_to_char_any: !d.is_open("F39-"),
         max_stmts: 14,
@@ -480,6 +485,7 @@ pub fn case_strategy(mode: &'static str) -> impl Strategy<Value = Case> {
                 inputs: vec![],
                 features: vec![],
                 excluded: vec![],
+                deadline_ms: None,
             })
         })
 }
@@ -553,6 +559,13 @@ fn first_words(msg: &str) -> String {
 }
 
 pub fn check_case(case: &Case, probe: &mut Probe) -> Result<(), String> {
+    oracle::set_case_deadline(case.deadline_ms);
+    let r = check_case_inner(case, probe);
+    oracle::set_case_deadline(None);
+    r
+}
+
+fn check_case_inner(case: &Case, probe: &mut Probe) -> Result<(), String> {
     let owned;
     let c = if case.source.is_empty() {
         owned = materialize(case.clone());
@@ -1031,6 +1044,7 @@ fn conversion_grid(ctx: &mut RunCtx) {
                         inputs: vec![],
                         features: vec![format!("grid:{}_TO_{}", src.name(), dst.name())],
                         excluded: vec![],
+                        deadline_ms: None,
                     };
                     let j = serde_json::to_value(&case).unwrap_or(serde_json::Value::Null);
                     ctx.enumerated("case", &j, |probe| {
@@ -1077,6 +1091,7 @@ fn operator_grid(ctx: &mut RunCtx) {
             inputs: vec![],
             features: vec![label],
             excluded: vec![],
+            deadline_ms: None,
         };
         let j = serde_json::to_value(&case).unwrap_or(serde_json::Value::Null);
         ctx.enumerated("case", &j, |probe| {
@@ -1167,6 +1182,110 @@ fn operator_grid(ctx: &mut RunCtx) {
     }
 }
 
+/// Enumerated BUDGET classes (after seeded change C01-g was missed):
+///  * non-terminating by design: backward JMP loops (and classic loops) whose exit condition
+///    depends on an input the trace never sets, in a PROGRAM, FUNCTION, METHOD and FB body, at
+///    call depth 0-2, spanning IF / CASE nesting - the ONLY acceptable outcome is the budget
+///    fault within the (200 ms) deadline; a cycle that never returns is turned into a dead
+///    worker (= VIOLATION) by the hang guard in `oracle.rs`;
+///  * tiny deadline (0 ms): long straight-line programs, deep recursion-free call chains and
+///    loops - Ok or ExecutionTimeout, frames empty, latch.
+fn budget_classes(ctx: &mut RunCtx) {
+    if ctx.only_replay.is_some() {
+        return;
+    }
+    let d = dials();
+    let nested = !d.is_open("F51-");
+    let mut progs: Vec<(String, String, Option<u64>)> = Vec::new();
+    let main = |vars: &str, body: &str| format!("PROGRAM Main\nVAR\n  x : INT;\n  stop : BOOL;\n{vars}END_VAR\n{body}END_PROGRAM\n");
+    // ---- loops that never end (stop stays FALSE)
+    let jmp_if = "  l1: x := INT#1;\n  IF NOT stop THEN\n    JMP l1;\n  END_IF;\n";
+    let jmp_uncond = "  l1: x := INT#1;\n  JMP l1;\n";
+    let jmp_two = "  la: x := INT#1;\n  JMP lb;\n  lc: x := INT#2;\n  lb: JMP la;\n";
+    let jmp_case = "  l1: CASE x OF\n    0: x := INT#0;\n       JMP l1;\n  ELSE\n    JMP l1;\n  END_CASE;\n";
+    let jmp_nested2 = "  l1: x := INT#1;\n  IF NOT stop THEN\n    IF x = INT#1 THEN\n      JMP l1;\n    END_IF;\n  END_IF;\n";
+    let jmp_empty = "  l1: ;\n  JMP l1;\n";
+    let whl = "  WHILE NOT stop DO\n    x := INT#1;\n  END_WHILE;\n";
+    let rpt = "  REPEAT\n    x := INT#1;\n  UNTIL stop\n  END_REPEAT;\n";
+    let forl = "  FOR i := LINT#0 TO LINT#9223372036854775806 DO\n    x := INT#1;\n  END_FOR;\n";
+    let jmp_over_loop = "  l1: FOR x := INT#0 TO INT#2 DO\n    ;\n  END_FOR;\n  JMP l1;\n";
+    let mut bodies: Vec<(&str, &str)> = vec![("jmp_uncond", jmp_uncond), ("jmp_two_labels", jmp_two), ("jmp_empty_stmt", jmp_empty), ("jmp_over_loop", jmp_over_loop), ("while", whl), ("repeat", rpt)];
+    if nested {
+        bodies.push(("jmp_if", jmp_if));
+        bodies.push(("jmp_case", jmp_case));
+        bodies.push(("jmp_nested_if", jmp_nested2));
+    }
+    for (name, body) in &bodies {
+        // in the PROGRAM
+        progs.push((format!("hang:{name}:program"), main("", body), Some(200)));
+        // in a FUNCTION (depth 1) and through a second FUNCTION (depth 2)
+        let f = format!("FUNCTION F1 : INT\nVAR_INPUT\n  stop : BOOL;\nEND_VAR\nVAR\n  x : INT;\nEND_VAR\n{body}  F1 := x;\nEND_FUNCTION\n\n");
+        progs.push((format!("hang:{name}:function_d1"), format!("{f}{}", main("", "  x := F1(stop);\n")), Some(200)));
+        let f2 = "FUNCTION F2 : INT\nVAR_INPUT\n  stop : BOOL;\nEND_VAR\n  F2 := F1(stop) + INT#1;\nEND_FUNCTION\n\n";
+        progs.push((format!("hang:{name}:function_d2"), format!("{f}{f2}{}", main("", "  x := F2(stop);\n")), Some(200)));
+        // in an FB body and in a METHOD
+        let fb = format!("FUNCTION_BLOCK FB1\nVAR_INPUT\n  stop : BOOL;\nEND_VAR\nVAR\n  x : INT;\nEND_VAR\nMETHOD PUBLIC M : INT\nVAR_INPUT\n  stop : BOOL;\nEND_VAR\nVAR\n  x : INT;\nEND_VAR\n{body}  M := x;\nEND_METHOD\n{body}END_FUNCTION_BLOCK\n\n");
+        progs.push((format!("hang:{name}:fb_body"), format!("{fb}{}", main("  fb : FB1;\n", "  fb(stop := stop);\n")), Some(200)));
+        progs.push((format!("hang:{name}:method"), format!("{fb}{}", main("  fb : FB1;\n", "  x := fb.M(stop);\n")), Some(200)));
+    }
+    progs.push(("hang:for_lint:program".into(), main("  i : LINT;\n", forl), Some(200)));
+    // ---- tiny deadline: straight line, deep chain, loops
+    let mut line = String::new();
+    for k in 0..1500 {
+        line.push_str(&format!("  x := INT#{};\n", k % 100));
+    }
+    progs.push(("tiny:straight_line".into(), main("", &line), Some(0)));
+    let mut chain = String::from("FUNCTION C0 : INT\nVAR_INPUT\n  a : INT;\nEND_VAR\n  C0 := a;\nEND_FUNCTION\n\n");
+    for k in 1..40 {
+        chain.push_str(&format!("FUNCTION C{k} : INT\nVAR_INPUT\n  a : INT;\nEND_VAR\nVAR\n  t : INT;\nEND_VAR\n  t := C{}(a);\n  C{k} := t;\nEND_FUNCTION\n\n", k - 1));
+    }
+    progs.push(("tiny:deep_chain".into(), format!("{chain}{}", main("", "  x := C39(INT#1);\n")), Some(0)));
+    progs.push(("tiny:deep_chain_2s".into(), format!("{chain}{}", main("", "  x := C39(INT#1);\n")), None));
+    progs.push(("tiny:while".into(), main("", whl), Some(0)));
+    if nested {
+        progs.push(("tiny:jmp_if".into(), main("", jmp_if), Some(0)));
+    }
+    for (i, (label, source, deadline)) in progs.into_iter().enumerate() {
+        if i % ctx.nworkers.max(1) != ctx.worker {
+            continue;
+        }
+        let case = Case {
+            prog_tape: empty_tape(),
+            trace_tape: empty_tape(),
+            ext_tape: empty_tape(),
+            mut_tape: empty_tape(),
+            print_bits: 0,
+            mode: "base".into(),
+            source,
+            base_source: String::new(),
+            mutations: vec![],
+            trace: vec![CycleIn { writes: vec![], dt_ns: 1_000_000 }, CycleIn { writes: vec![], dt_ns: 1_000_000 }],
+            site: None,
+            inputs: vec![],
+            features: vec![label.clone()],
+            excluded: vec![],
+            deadline_ms: deadline,
+        };
+        let j = serde_json::to_value(&case).unwrap_or(serde_json::Value::Null);
+        ctx.enumerated("case", &j, |probe| {
+            probe.label("budget_class");
+            let r = check_case(&case, probe);
+            // a program of the non-terminating class that is accepted can only end in the
+            // budget fault; make that visible in the histogram
+            if label.starts_with("hang:") {
+                if probe.labels.iter().any(|l| l == "fault=ExecutionTimeout") {
+                    probe.label("hang_class:timed_out");
+                } else if probe.labels.iter().any(|l| l.ends_with(":rejected")) {
+                    probe.label("hang_class:rejected");
+                } else {
+                    probe.label("hang_class:other_outcome");
+                }
+            }
+            r
+        });
+    }
+}
+
 fn run(ctx: &mut RunCtx) {
     let open: Vec<String> = ctx
         .findings
@@ -1185,6 +1304,7 @@ fn run(ctx: &mut RunCtx) {
     if on("grid") {
         conversion_grid(ctx);
         operator_grid(ctx);
+        budget_classes(ctx);
     }
     ctx.search("base", case_strategy("base"), if on("base") { tier.pick(4_000, 100_000) } else { 0 }, check_case);
     ctx.search("mutated", case_strategy("mutated"), if on("mutated") { tier.pick(6_000, 200_000) } else { 0 }, check_case);
